@@ -582,7 +582,7 @@ def c19(ctx):
     rng.shuffle(lines)
     if ctx.tier == "quick":
         lines = lines[:14000]
-    tmo = tiers(ctx, 5.0, 30.0)
+    tmo = tiers(ctx, 20.0, 60.0)   # (printing the largest value of a 20-exponent-bit format legitimately takes seconds; a hang is unbounded)
     wide = gen.wide_exponent_prog_lines(rng, tiers(ctx, 40, 400))
     ctx.stream("wide-exponent-core-release", wide, spec_mode="prog", nontrivial=lambda t: True)
     ctx.stream("wide-exponent-core-dbg", wide, spec_mode="prog", profile="dbg", nontrivial=lambda t: True)
@@ -601,10 +601,10 @@ def c19(ctx):
                         pl.append("%s %s %s" % (op, s, tok))
                     pl.append("frac %s %d %s" % (s, rng.choice([1, 3]), tok))
             pl.append("frombig %s %x~%d" % (s, 2 ** 52 + 12345, rng.choice([7, 11, 12])))
-    ctx.stream("padded-release", pl, spec_mode="total", nontrivial=lambda t: True, chunk_timeout=tiers(ctx, 240, 900), per_line_timeout=tiers(ctx, 5.0, 30.0))
-    ctx.stream("padded-dbg", pl, spec_mode="total", profile="dbg", nontrivial=lambda t: True, chunk_timeout=tiers(ctx, 480, 1800), per_line_timeout=tiers(ctx, 10.0, 60.0))
-    ctx.stream("extremes-release", lines, spec_mode="total", nontrivial=lambda t: True, chunk_timeout=tiers(ctx, 240, 900), per_line_timeout=tmo)
-    ctx.stream("extremes-dbg", lines, spec_mode="total", profile="dbg", nontrivial=lambda t: True, chunk_timeout=tiers(ctx, 480, 1800), per_line_timeout=tmo * 2)
+    ctx.stream("padded-release", pl, spec_mode="total", nontrivial=lambda t: True, chunk_timeout=tiers(ctx, 400, 900), per_line_timeout=tiers(ctx, 20.0, 60.0))
+    ctx.stream("padded-dbg", pl, spec_mode="total", profile="dbg", nontrivial=lambda t: True, chunk_timeout=tiers(ctx, 800, 1800), per_line_timeout=tiers(ctx, 40.0, 120.0))
+    ctx.stream("extremes-release", lines, spec_mode="total", nontrivial=lambda t: True, chunk_timeout=tiers(ctx, 400, 900), per_line_timeout=tmo)
+    ctx.stream("extremes-dbg", lines, spec_mode="total", profile="dbg", nontrivial=lambda t: True, chunk_timeout=tiers(ctx, 800, 1800), per_line_timeout=tmo * 2)
     ctx.assumptions.append("stack exhaustion, allocation failure and wall-clock time are runtime behaviour the model cannot exhibit: they are observed by the supervised harness (ABORT/HANG attributed to single lines); the fuel/termination theorems cover the logic")
     return done(ctx)
 
